@@ -47,6 +47,17 @@ BINH(i8, 8, 1) BINH(i16, 16, 1) BINH(i32, 32, 1) BINH(i64, 64, 1) BINH(ill, 64, 
 MULH(i8, 8, 1) MULH(i16, 16, 1)
 /* native-only (translator validation) for the wide multiplications decided by Engine I */
 MULH(i32, 32, 1) MULH(i64, 64, 1) MULH(u32, 32, 0) MULH(usz, 64, 0)
+/* wide multiplication with one operand an enumerated constant (-DMULC=..., one harness instance per constant), the other symbolic */
+#ifdef MULC
+#define MULCH(T, n, sg) \
+void h_mulc_##T(void) { u64 a = vf_nd64(), b = (u64)(long long)(MULC); u64 out = 0; s128 x = as_t(a, n, sg), y = as_t(b, n, sg), e = x * y; \
+  KF_MUL(e, n, sg); \
+  u32 rc = MULC_SWAP ? w_mul_##T(b, a, (char*)&out) : w_mul_##T(a, b, (char*)&out); VF_OBS(rc); VF_OBS(out); \
+  VF_ASSERT(rc == 0 || rc == 1, "only OverflowError may be thrown"); \
+  VF_ASSERT((rc == 0) == rep(e, n, sg), "mul: returns iff exact result representable"); \
+  if (rc == 0) VF_ASSERT(as_t(out, n, sg) == e, "mul: value exact"); VF_WITNESS(); }
+MULCH(i32, 32, 1) MULCH(i64, 64, 1) MULCH(u32, 32, 0) MULCH(usz, 64, 0)
+#endif
 #define CTH(T, n, sg, U, m, ug) \
 void h_ctor_##T##_from_##U(void) { u64 a = vf_nd64(); u64 out = 0; s128 x = as_t(a, m, ug); \
   u32 rc = w_ctor_##T##_from_##U(a, (char*)&out); VF_OBS(rc); VF_OBS(out); \
